@@ -1,5 +1,5 @@
 SPECIFICATION Spec
-CONSTANT Fams = {"fields", "ps4", "toggle", "redir", "compound", "verbose", "noexec", "errors"}
+CONSTANT Fams = {"fields", "ps4", "toggle", "redir", "compound", "verbose", "noexec", "errors", "envps4"}
 CONSTANT Deep = 1
 CONSTANT NegVariant = "spec"
 INVARIANT Laws
